@@ -16,7 +16,31 @@ from typing import Any, Iterator
 
 from . import runner
 
-_cycle: contextvars.ContextVar[dict | None] = contextvars.ContextVar("verif_cycle", default=None)
+_cycle_var: contextvars.ContextVar[dict | None] = contextvars.ContextVar("verif_cycle", default=None)
+
+
+class _CycleAccessor:
+    """The current cycle record, but only inside the worker task that runs the cycle (daemon/timer
+    tasks spawned in a cycle inherit the context variable; they must not see the record)."""
+
+    def get(self) -> dict | None:
+        rec = _cycle_var.get()
+        if rec is None or rec.get("_task") is not asyncio.current_task():
+            return None
+        return rec
+
+    def set(self, rec: dict) -> Any:
+        rec["_task"] = asyncio.current_task()
+        return _cycle_var.set(rec)
+
+    def reset(self, tok: Any) -> None:
+        rec = _cycle_var.get()
+        if rec is not None:
+            rec.pop("_task", None)
+        _cycle_var.reset(tok)
+
+
+_cycle = _CycleAccessor()
 
 
 def _jsonable(x: Any, depth: int = 0) -> Any:
@@ -32,6 +56,35 @@ def _jsonable(x: Any, depth: int = 0) -> Any:
     if isinstance(x, (list, tuple, set, frozenset)):
         return [_jsonable(v, depth + 1) for v in x]
     return repr(x)
+
+
+TICKS_PER_S = 64
+
+
+def to_ticks(seconds: float) -> int:
+    x = seconds * TICKS_PER_S
+    r = round(x)
+    if abs(x - r) > 1e-6:
+        raise ValueError(f"time {seconds!r} is not a multiple of 1/{TICKS_PER_S} s")
+    return int(r)
+
+
+def iso_to_ticks(val: str | None) -> int | None:
+    if val is None:
+        return None
+    import iso8601
+    from . import simloop
+    return to_ticks((iso8601.parse_date(val, default_timezone=None) - simloop.EPOCH).total_seconds())
+
+
+def record_to_json(rec: Any) -> dict | None:
+    """A kopf ProgressRecord (as fetched) → the model's `Rec` fields (times in ticks since EPOCH)."""
+    if rec is None:
+        return None
+    return {"started": iso_to_ticks(rec.get("started")), "delayed": iso_to_ticks(rec.get("delayed")),
+            "purpose": rec.get("purpose") or None, "retries": int(rec.get("retries") or 0),
+            "success": bool(rec.get("success")), "failure": bool(rec.get("failure")),
+            "subrefs": sorted(rec.get("subrefs") or [])}
 
 
 class Observer:
@@ -323,12 +376,91 @@ def installed(obs: Observer) -> Iterator[None]:
                             "new": _jsonable(kw.get("new"))}
         return cause
 
+    from kopf._core.actions import execution
+    from .. import rfc as _rfc
+    orig_pcc = processing.process_changing_cause
+    orig_exec = execution.execute_handlers_once
+    depth: contextvars.ContextVar[int] = contextvars.ContextVar("verif_exec_depth", default=0)
+
+    def _fetch_all(storage: Any, body: Any, ids: Any) -> dict:
+        out = {}
+        for i in ids:
+            try:
+                out[str(i)] = record_to_json(storage.fetch(key=i, body=body))
+            except Exception as e:  # noqa: BLE001
+                out[str(i)] = {"error": repr(e)}
+        return out
+
+    async def process_changing_cause(**kw: Any) -> Any:
+        rec = _cycle.get()
+        if rec is None:
+            return await orig_pcc(**kw)
+        cause, registry, settings = kw["cause"], kw["registry"], kw["settings"]
+        storage = settings.persistence.progress_storage
+        owned = [h for h in registry._changing.get_resource_handlers(resource=cause.resource)]
+        selected = [h for h in registry._changing.get_handlers(cause=cause)]
+        P = _fetch_all(storage, cause.body, [h.id for h in owned])
+        subs = sorted({s for r in P.values() if r for s in r.get("subrefs", [])})
+        P.update(_fetch_all(storage, cause.body, subs))
+        info = {"reason": cause.reason.value, "owned": [str(h.id) for h in owned], "selected": [str(h.id) for h in selected],
+                "limits": {str(h.id): [None if h.timeout is None else to_ticks(h.timeout), h.retries] for h in owned},
+                "P": P, "now": to_ticks(sim.now()), "outcomes": None, "now1": None, "storage": storage,
+                "body": cause.body}
+        rec["pcc"] = info
+        out = await orig_pcc(**kw)
+        info["delays"] = [float(d) for d in out]
+        info["memory_fully_handled_once"] = kw["memory"].fully_handled_once
+        return out
+
+    async def execute_handlers_once(*a: Any, **kw: Any) -> Any:
+        rec = _cycle.get()
+        d = depth.get()
+        tok = depth.set(d + 1)
+        try:
+            out = await orig_exec(*a, **kw)
+        finally:
+            depth.reset(tok)
+        if rec is not None and d == 0 and rec.get("pcc") is not None and rec["pcc"]["outcomes"] is None \
+                and kw.get("extra_context") is not None and "default_errors" not in kw:
+            rec["pcc"]["outcomes"] = {
+                str(k): {"final": bool(o.final), "delay": None if o.delay is None else to_ticks(o.delay),
+                         "error": o.exception is not None, "subrefs": sorted(map(str, o.subrefs)),
+                         "exc": type(o.exception).__name__ if o.exception is not None else None}
+                for k, o in out.items()}
+            rec["pcc"]["now1"] = to_ticks(sim.now())
+        return out
+
+    orig_apply_inner = apply
+
+    async def apply_with_progress(**kw: Any) -> Any:
+        rec = _cycle.get()
+        if rec is not None and rec.get("pcc") is not None:
+            info = rec["pcc"]
+            try:
+                patched = _rfc.merge_patch(_jsonable(dict(kw["body"])), _jsonable(dict(kw["patch"])))
+                ids = set(info["P"].keys())
+                for o in (info["outcomes"] or {}).values():
+                    ids.update(o["subrefs"])
+                from kopf._cogs.structs import bodies as _bodies
+                info["P_after"] = _fetch_all(info["storage"], _bodies.Body(patched), sorted(ids))
+                db = kw["settings"].persistence.diffbase_storage
+                info["diffbase_in_patch"] = db.fetch(body=_bodies.Body(patched)) != db.fetch(body=kw["body"])
+            except Exception as e:  # noqa: BLE001
+                info["P_after"] = {"error": repr(e)}
+            info.pop("storage", None)
+            info.pop("body", None)
+        return await orig_apply_inner(**kw)
+
+    processing.process_changing_cause = process_changing_cause  # type: ignore[assignment]
+    execution.execute_handlers_once = execute_handlers_once  # type: ignore[assignment]
     processing.process_resource_event = process_resource_event  # type: ignore[assignment]
-    application.apply = apply  # type: ignore[assignment]
+    application.apply = apply_with_progress  # type: ignore[assignment]
     causes.detect_changing_cause = detect_changing_cause  # type: ignore[assignment]
     try:
         yield
     finally:
         processing.process_resource_event = orig_pre  # type: ignore[assignment]
         application.apply = orig_apply  # type: ignore[assignment]
+        processing.process_changing_cause = orig_pcc  # type: ignore[assignment]
+        execution.execute_handlers_once = orig_exec  # type: ignore[assignment]
         causes.detect_changing_cause = orig_detect  # type: ignore[assignment]
